@@ -15,6 +15,11 @@ func (x *Exec) evalWitness(env *SpecEnv, e Expr) (v Val) {
 	defer func() {
 		if r := recover(); r != nil {
 			te, ok := r.(toolErr)
+			if ok && strings.Contains(string(te), "$i used outside a range loop") {
+				// a return outside the loop the witness counts in: arbitrary there
+				v = x.freshVal("witness?", types.Typ[types.Int], env.cur)
+				return
+			}
 			if !ok || !strings.Contains(string(te), "unknown identifier") {
 				panic(r)
 			}
